@@ -1,7 +1,5 @@
 package main
 
-import "go/ast"
 
 func genResolver(c *ctx, s *schema)                    {}
 func genFormatter(c *ctx, s *schema)                   {}
-func genActions(c *ctx, s *schema, which string, g *ygrammar, gf *ast.File) {}
